@@ -2,6 +2,7 @@ package props
 
 import (
 	"fmt"
+	"reflect"
 	"sort"
 	"strings"
 
@@ -53,10 +54,14 @@ var c05mapForms = []struct{ head, body string }{
 	{"range k := m", "[{{k}}={{.}}]"},
 }
 
-var c05nDirected = len(c05maps())*len(c05mapForms) + 1
+var c05nDirected = len(c05maps())*len(c05mapForms) + 1 + c05nRebind
 
 func c05directedCase(c *fw.Ctx, idx int) bool {
 	maps := c05maps()
+	if idx > len(maps)*len(c05mapForms) {
+		c05rebindCase(c, idx)
+		return true
+	}
 	if idx == len(maps)*len(c05mapForms) {
 		// zero-variable form: '.' is the value; compared as multiset of values
 		c.Begin(idx, map[string]interface{}{"directed": "range over a 4-entry map, zero-variable form"})
@@ -110,4 +115,203 @@ func c05directedCase(c *fw.Ctx, idx int) bool {
 func init() {
 	c05.nDirected = c05nDirected
 	c05.directed = c05directedCase
+}
+
+// ---- the same parsed range statements executed with subjects of changing kind (one Set) ----
+
+type c05structR struct {
+	items []string
+	i     int
+	idx   bool
+}
+
+func (r *c05structR) ProvidesIndex() bool { return r.idx }
+func (r *c05structR) Range() (k, v reflect.Value, end bool) {
+	if r.i >= len(r.items) {
+		return reflect.Value{}, reflect.Value{}, true
+	}
+	if r.idx {
+		k = reflect.ValueOf((r.i + 1) * 10)
+	}
+	v = reflect.ValueOf(r.items[r.i])
+	r.i++
+	return
+}
+
+// custom Rangers whose underlying kinds are slice, chan and map: ranged through Range(), not natively
+type c05sliceR []int // cell 0: elements still to come, cell 1: next index
+
+func (c c05sliceR) ProvidesIndex() bool { return true }
+func (c c05sliceR) Range() (k, v reflect.Value, end bool) {
+	if c[0] <= 0 {
+		return reflect.Value{}, reflect.Value{}, true
+	}
+	k, v = reflect.ValueOf(c[1]), reflect.ValueOf(c[0])
+	c[0]--
+	c[1]++
+	return
+}
+
+type c05chanR chan string // yields the non-empty words, upper-cased
+
+func (w c05chanR) ProvidesIndex() bool { return false }
+func (w c05chanR) Range() (k, v reflect.Value, end bool) {
+	for s := range w {
+		if s != "" {
+			return reflect.Value{}, reflect.ValueOf(strings.ToUpper(s)), false
+		}
+	}
+	return reflect.Value{}, reflect.Value{}, true
+}
+
+type c05mapR map[string]int // yields "M<n>" for n = m["n"] down to 1
+
+func (m c05mapR) ProvidesIndex() bool { return false }
+func (m c05mapR) Range() (k, v reflect.Value, end bool) {
+	if m["n"] <= 0 {
+		return reflect.Value{}, reflect.Value{}, true
+	}
+	v = reflect.ValueOf(fmt.Sprintf("M%d", m["n"]))
+	m["n"]--
+	return
+}
+
+type c05elem struct{ k, v string }
+
+type c05subject struct {
+	name  string
+	mk    func() interface{}
+	idx   bool
+	elems []c05elem
+}
+
+func c05chanOf(vals ...string) chan string {
+	ch := make(chan string, len(vals))
+	for _, v := range vals {
+		ch <- v
+	}
+	close(ch)
+	return ch
+}
+
+var c05subjects = []c05subject{
+	{"[]string", func() interface{} { return []string{"a", "b", "c"} }, true, []c05elem{{"0", "a"}, {"1", "b"}, {"2", "c"}}},
+	{"[2]int", func() interface{} { return [2]int{7, 8} }, true, []c05elem{{"0", "7"}, {"1", "8"}}},
+	{"*[]string", func() interface{} { s := []string{"p"}; return &s }, true, []c05elem{{"0", "p"}}},
+	{"map[string]int/1", func() interface{} { return map[string]int{"k": 1} }, true, []c05elem{{"k", "1"}}},
+	{"chan string", func() interface{} { return c05chanOf("x", "y") }, false, []c05elem{{"", "x"}, {"", "y"}}},
+	{"struct Ranger without index", func() interface{} { return &c05structR{items: []string{"p", "q"}} }, false, []c05elem{{"", "p"}, {"", "q"}}},
+	{"struct Ranger with index", func() interface{} { return &c05structR{items: []string{"s", "t"}, idx: true} }, true, []c05elem{{"10", "s"}, {"20", "t"}}},
+	{"slice-kinded Ranger", func() interface{} { return c05sliceR{3, 0} }, true, []c05elem{{"0", "3"}, {"1", "2"}, {"2", "1"}}},
+	{"chan-kinded Ranger", func() interface{} { return c05chanR(c05chanOf("a", "", "b")) }, false, []c05elem{{"", "A"}, {"", "B"}}},
+	{"map-kinded Ranger", func() interface{} { return c05mapR{"n": 2, "other": 5} }, false, []c05elem{{"", "M2"}, {"", "M1"}}},
+	{"empty []int", func() interface{} { return []int{} }, true, nil},
+	{"nil map", func() interface{} { return map[string]int(nil) }, true, nil},
+	{"closed empty chan", func() interface{} { return c05chanOf() }, false, nil},
+	{"struct Ranger yielding nothing", func() interface{} { return &c05structR{} }, false, nil},
+	{"slice-kinded Ranger yielding nothing", func() interface{} { return c05sliceR{0, 0} }, true, nil},
+	{"chan-kinded Ranger yielding nothing", func() interface{} { return c05chanR(c05chanOf("", "")) }, false, nil},
+	{"map-kinded Ranger yielding nothing", func() interface{} { return c05mapR{"n": 0, "other": 5} }, false, nil},
+}
+
+var c05rebindForms = []string{
+	"{{range x}}<{{.}}>{{else}}E{{end}}|{{.}}",
+	"{{range v := x}}<{{v}}|{{.}}>{{else}}E{{end}}|{{.}}",
+	"{{range i, v := x}}<{{i}}={{v}}|{{.}}>{{else}}E{{end}}|{{.}}",
+	"{{range xs}}{{range v := .}}<{{v}}>{{else}}E{{end}};{{end}}|{{.}}",
+}
+
+// c05rebindWant is the documented binding of the zero-, one- and two-variable forms ("" = an error is expected).
+func c05rebindWant(form int, s c05subject) (string, bool) {
+	var b strings.Builder
+	if form == 2 && !s.idx {
+		return "", false
+	}
+	if len(s.elems) == 0 {
+		b.WriteString("E")
+	}
+	for _, e := range s.elems {
+		switch form {
+		case 0:
+			b.WriteString("<" + e.v + ">")
+		case 1:
+			if s.idx {
+				b.WriteString("<" + e.k + "|" + e.v + ">")
+			} else {
+				b.WriteString("<" + e.v + "|outer>")
+			}
+		case 2:
+			if !s.idx {
+				return "", false
+			}
+			b.WriteString("<" + e.k + "=" + e.v + "|outer>")
+		}
+	}
+	return b.String() + "|outer", true
+}
+
+const c05nRebind = 120
+
+func c05rebindCase(c *fw.Ctx, idx int) {
+	r := c.Rand(idx, "c05rebind")
+	files := map[string]string{}
+	for i, f := range c05rebindForms {
+		files[fmt.Sprintf("/f%d.jet", i)] = f
+	}
+	set, _ := jx.NewSet(files, jx.NoEscape)
+	var hist []string
+	c.Begin(idx, map[string]interface{}{"directed": "one Set, the same range statements executed with subjects of changing kind", "templates": files})
+	defer c.End()
+	n := 5 + r.Intn(8)
+	for step := 0; step < n; step++ {
+		form := r.Intn(len(c05rebindForms))
+		vars := jet.VarMap{}
+		var want string
+		ok := true
+		var desc string
+		if form < 3 {
+			s := c05subjects[r.Intn(len(c05subjects))]
+			vars.Set("x", s.mk())
+			want, ok = c05rebindWant(form, s)
+			desc = s.name
+		} else {
+			// nested: the inner one-variable range meets subjects of different kinds within ONE execution
+			var xs []interface{}
+			var b strings.Builder
+			k := 2 + r.Intn(4)
+			for j := 0; j < k; j++ {
+				s := c05subjects[r.Intn(len(c05subjects))]
+				xs = append(xs, s.mk())
+				desc += s.name + ","
+				if len(s.elems) == 0 {
+					b.WriteString("E")
+				}
+				for _, e := range s.elems {
+					if s.idx {
+						b.WriteString("<" + e.k + ">")
+					} else {
+						b.WriteString("<" + e.v + ">")
+					}
+				}
+				b.WriteString(";")
+			}
+			vars.Set("xs", xs)
+			want = b.String() + "|outer"
+		}
+		hist = append(hist, fmt.Sprintf("f%d over %s", form, desc))
+		res := jx.RunSet(set, fmt.Sprintf("/f%d.jet", form), vars, "outer")
+		c.Count("rebound_range_executions", 1)
+		c.Eval(1)
+		switch {
+		case !ok && (res.Panic != nil || res.Err == nil):
+			c.Journal(map[string]interface{}{"history": hist})
+			c.Violation("c05:rebound-subject:two-variable-over-indexless-accepted", "", fmt.Sprintf("step %d (%s): %s", step, hist[len(hist)-1], res))
+			return
+		case ok && (res.Failed() || res.Out != want):
+			c.Journal(map[string]interface{}{"history": hist})
+			c.Violation(fmt.Sprintf("c05:rebound-subject:form%d", form), "", fmt.Sprintf("step %d (%s): rendered %s, want %q", step, hist[len(hist)-1], res, want))
+			return
+		}
+	}
+	c.Distinct(fmt.Sprintf("rebound|%d", idx))
 }
